@@ -7,6 +7,24 @@ from prov.model import Literal
 from ..world import World
 
 
+import json
+
+
+def tagged_to_plain(t):
+    """driver encoding -> plain python JSON (key order kept by dict insertion order)"""
+    if t is None or isinstance(t, (bool, str)):
+        return t
+    if "i" in t:
+        return int(t["i"])
+    if "f" in t:
+        return float(t["f"]["r"])
+    if "a" in t:
+        return [tagged_to_plain(x) for x in t["a"]]
+    if "o" in t:
+        return {k: tagged_to_plain(v) for (k, v) in t["o"]}
+    raise TypeError(repr(t))
+
+
 def dec_name(j):
     if j is None:
         return None
@@ -105,6 +123,11 @@ def replay_ops(ops):
             w.eq(op["a"], op["b"])
         elif o == "rec_eq":
             w.rec_eq(op["a"], op["b"])
+        elif o == "enc_json":
+            w.enc_json(op["c"])
+        elif o == "dec_json":
+            from .. import jsontree
+            w.dec_json(json.dumps(tagged_to_plain(op["tree"])))
         elif o == "obs":
             w.obs(op["c"])
         elif o == "obs_rec":
